@@ -37,11 +37,15 @@ pub struct StepCase {
     /// when set, the step is the space's own distance between these two letters (exact ties
     /// between "within the step" and "beyond the step")
     pub step_from: Option<(usize, usize)>,
+    /// after this many steps the same problem object is set up again with a validity checker
+    /// for this other world (a changed environment); stepping then continues
+    pub resetup: Option<(usize, crate::world::World)>,
 }
 impl StepCase {
     pub fn to_json(&self) -> Value {
         json!({"kind":"steps","problem":self.problem.to_json(),"params":self.params.to_json(),
-               "letters":self.letters.iter().map(|l| fjs(l)).collect::<Vec<_>>(),"script":self.script,"step_from":self.step_from.map(|(a,b)| json!([a,b]))})
+               "letters":self.letters.iter().map(|l| fjs(l)).collect::<Vec<_>>(),"script":self.script,"step_from":self.step_from.map(|(a,b)| json!([a,b])),
+               "resetup":self.resetup.as_ref().map(|(k,w)| json!({"at":k,"world":w.to_json()}))})
     }
     pub fn from_json(v: &Value) -> StepCase {
         StepCase {
@@ -50,6 +54,7 @@ impl StepCase {
             letters: v["letters"].as_array().unwrap().iter().map(crate::util::parse_fs).collect(),
             script: v["script"].as_array().unwrap().iter().map(|x| x.as_u64().unwrap() as usize).collect(),
             step_from: v["step_from"].as_array().map(|a| (a[0].as_u64().unwrap() as usize, a[1].as_u64().unwrap() as usize)),
+            resetup: if v["resetup"].is_null() { None } else { Some((v["resetup"]["at"].as_u64().unwrap_or(0) as usize, crate::world::World::from_json(&v["resetup"]["world"]))) },
         }
     }
 }
@@ -61,25 +66,52 @@ pub struct StepRec {
     pub res: Res,
 }
 pub struct Trace {
+    /// the world whose validity checker was installed for this segment of the run
+    pub world: crate::world::World,
+    /// the event log of this segment (from its setup call on)
+    pub recs: Vec<Rec>,
     pub snaps: Vec<Snap>,
     pub steps: Vec<StepRec>,
     /// goal samples handed out during setup (RRT-Connect's goal-tree root candidates)
     pub setup_goal_samples: Vec<Vec<f64>>,
 }
 
-pub fn run_trace<K: Kit>(kit: &K, case: &StepCase) -> Result<(Drv<K>, Trace), String> {
+pub fn run_trace<K: Kit>(kit: &K, case: &StepCase) -> Result<(Drv<K>, Vec<Trace>), String> {
     oxmpl::verif::arm(0);
     let mut d = Drv::new(kit, &case.params, 0.0).map_err(|r| format!("constructor: {}", r.short()))?;
     d.log.borrow_mut().budget = 400_000;
     let inst = d.install(&case.problem, SampleMode::Scripted(vec![case.letters[0].clone()]))?;
+    let first = inst.clone();
     let r = d.setup(inst);
     if r != Res::Done {
         return Err(format!("setup: {}", r.short()));
     }
-    let setup_goal_samples = d.log.borrow().recs.iter().filter_map(|r| if let Ev::GoalSample(f) = &r.ev { Some(f.clone()) } else { None }).collect();
+    let mut segments: Vec<Trace> = vec![];
+    let mut seg_start = 0usize;
+    let mut world = case.problem.world.clone();
+    let setup_samples = |d: &Drv<K>, from: usize| -> Vec<Vec<f64>> { d.log.borrow().recs[from..].iter().filter_map(|r| if let Ev::GoalSample(f) = &r.ev { Some(f.clone()) } else { None }).collect() };
+    let mut setup_goal_samples = setup_samples(&d, 0);
     let mut snaps = vec![d.snapshot()];
     let mut steps = vec![];
-    for &li in &case.script {
+    for (k, &li) in case.script.iter().enumerate() {
+        if let Some((at, w2)) = &case.resetup {
+            if *at == k {
+                // close the current segment, set the same problem object up again with a new checker
+                let recs = d.log.borrow().recs[seg_start..].to_vec();
+                segments.push(Trace { world: world.clone(), recs, snaps: std::mem::take(&mut snaps), steps: std::mem::take(&mut steps), setup_goal_samples: std::mem::take(&mut setup_goal_samples) });
+                let mut p2 = case.problem.clone();
+                p2.world = w2.clone();
+                seg_start = d.log.borrow().recs.len();
+                let inst2 = d.reinstall(&first, &p2)?;
+                let r = d.setup(inst2);
+                if r != Res::Done {
+                    return Err(format!("re-setup: {}", r.short()));
+                }
+                world = w2.clone();
+                setup_goal_samples = setup_samples(&d, seg_start);
+                snaps = vec![d.snapshot()];
+            }
+        }
         d.set_script(vec![case.letters[li].clone()]);
         let mark = d.log.borrow().recs.len();
         let res = d.step();
@@ -101,11 +133,13 @@ pub fn run_trace<K: Kit>(kit: &K, case: &StepCase) -> Result<(Drv<K>, Trace), St
         let stop = !matches!(res, Res::Err(crate::drv::ErrKind::Timeout));
         steps.push(StepRec { q, q_is_goal, events, res });
         snaps.push(d.snapshot());
-        if stop {
+        if stop && !(case.resetup.as_ref().map(|(at, _)| *at > k).unwrap_or(false)) {
             break;
         }
     }
-    Ok((d, Trace { snaps, steps, setup_goal_samples }))
+    let recs = d.log.borrow().recs[seg_start..].to_vec();
+    segments.push(Trace { world, recs, snaps, steps, setup_goal_samples });
+    Ok((d, segments))
 }
 
 fn bits_eq(a: &[f64], b: &[f64]) -> bool {
@@ -175,7 +209,7 @@ fn step_queries(events: &[Rec]) -> (usize, usize) {
 }
 
 fn judge_trace<K: Kit>(prop: StepProp, ctx: &Ctx, b: &mut Batch, kit: &K, case: &StepCase, d: &Drv<K>, tr: &Trace) {
-    let eval = match WorldEval::<K>::new(kit, &case.problem.world) {
+    let eval = match WorldEval::<K>::new(kit, &tr.world) {
         Ok(e) => e,
         Err(e) => {
             ctx.inconclusive(e);
@@ -188,16 +222,21 @@ fn judge_trace<K: Kit>(prop: StepProp, ctx: &Ctx, b: &mut Batch, kit: &K, case: 
     let step = case.params.max_distance;
     let radius = case.params.search_radius;
     let limit = case.params.step_limit();
-    let log = d.log.borrow();
     let start_valid = eval.valid(&kit.unflat(&case.problem.start), &case.problem.start);
 
     // ---------------- C15: structure of every snapshot
     if prop == StepProp::C15 {
-        let acc = Accepted::<K>::from_log(kit, sp, &log.recs, &case.problem.start);
+        let acc = Accepted::<K>::from_log(kit, sp, &tr.recs, &case.problem.start);
         let lvs = sp.get_longest_valid_segment_length();
         // only the nodes added since the previous snapshot need the (expensive) edge checks,
         // plus every re-parented node
         let mut checked_edges: std::collections::HashSet<(u64, u64)> = std::collections::HashSet::new();
+        // right after setup the trees must be fresh: the start alone, and at most one goal root
+        match &tr.snaps[0] {
+            Snap::Tree(t) if t.len() != 1 => j.viol(StepProp::C15, "tree:not-reset-by-setup", format!("{} nodes right after setup", t.len()), 0),
+            Snap::Trees(a, g) if a.len() != 1 || g.len() > 1 => j.viol(StepProp::C15, "tree:not-reset-by-setup", format!("{} / {} nodes right after setup", a.len(), g.len()), 0),
+            _ => {}
+        }
         for (si, s) in tr.snaps.iter().enumerate() {
             b.distinct.insert(s.hash());
             b.count("snapshots_checked", 1);
@@ -212,7 +251,8 @@ fn judge_trace<K: Kit>(prop: StepProp, ctx: &Ctx, b: &mut Batch, kit: &K, case: 
                 if name == "goal_tree" {
                     // root must be one of the goal samples handed out, and satisfy the goal
                     let root = &tree[0].s;
-                    let known = log.recs.iter().any(|r| matches!(&r.ev, Ev::GoalSample(f) if bits_eq(f, root)));
+                    // ... handed out during the setup of *this* segment
+                    let known = tr.setup_goal_samples.iter().any(|f| bits_eq(f, root));
                     if !known || tree[0].parent.is_some() {
                         j.viol(StepProp::C15, "goal_tree:root-is-not-a-goal-sample", format!("root {:?}", root), si);
                     }
@@ -376,8 +416,18 @@ fn judge_trace<K: Kit>(prop: StepProp, ctx: &Ctx, b: &mut Batch, kit: &K, case: 
                     let reached = bits_eq(&y.s, &x.s);
                     if reached {
                         b.count("connect_solutions", 1);
+                        // the planner must report the connection when the target was clearly within
+                        // one step; at a distance within rounding of the step it may legitimately
+                        // have interpolated onto the target without noticing
+                        // (exact comparison, taken in both argument orders so that only a distance that
+                        // is <= step either way counts as "within the step")
+                        let dmin = s0.iter().map(|n| j.d(&n.s, &x.s).max(j.d(&x.s, &n.s))).fold(f64::INFINITY, f64::min);
                         if !st.res.is_path() {
-                            j.viol(StepProp::C16, "connection-not-returned", format!("trees met at {:?} but result is {}", x.s, st.res.short()), si);
+                            if dmin <= step {
+                                j.viol(StepProp::C16, "connection-not-returned", format!("trees met at {:?} (distance {dmin} <= step {step}) but result is {}", x.s, st.res.short()), si);
+                            } else {
+                                b.count("connect_met_at_exact_step_boundary_unreported", 1);
+                            }
                         }
                     } else if st.res.is_path() {
                         j.viol(StepProp::C16, "path-without-connection", "a path was returned although the trees did not meet".into(), si);
@@ -545,7 +595,7 @@ pub fn make_case(r: &mut Sm, idx: usize, prop: StepProp, depth_exhaustive: Optio
     params.search_radius = params.max_distance * *r.pick(&[0.5, 1.0, 2.0, 5.0]);
     params.goal_bias = *r.pick(&[0.0, 0.0, 0.05, 0.3]);
     let letters = alphabet(r, &problem, 3);
-    let script = match depth_exhaustive {
+    let script: Vec<usize> = match depth_exhaustive {
         Some((code, depth)) => {
             // `code` enumerates sequences over the first 6 letters
             let base = letters.len().min(6);
@@ -564,7 +614,20 @@ pub fn make_case(r: &mut Sm, idx: usize, prop: StepProp, depth_exhaustive: Optio
     } else {
         None
     };
-    StepCase { problem, params, letters, script, step_from }
+    // a changed environment half-way: same problem object, new checker
+    let resetup = if depth_exhaustive.is_none() && script.len() >= 6 && r.bool(0.3) {
+        let at = 2 + r.below(script.len() - 3);
+        let host2 = *r.pick(&[Hostility::Plain, Hostility::GoalOverlap, Hostility::GoalInvalid, Hostility::Free]);
+        let mut p2 = gen_problem(r, &problem.spec, host2);
+        // keep start and goal of the installed problem; only the world changes
+        if host2 == Hostility::GoalInvalid {
+            p2.world.prims.push(crate::world::Prim::Shell { centre: problem.goal.centre.clone(), r_in: 0.0, r_out: problem.goal.radius * 1.5 + 1e-5 });
+        }
+        Some((at, p2.world))
+    } else {
+        None
+    };
+    StepCase { problem, params, letters, script, step_from, resetup }
 }
 
 pub fn run_case(prop: StepProp, ctx: &Ctx, b: &mut Batch, case: &StepCase) {
@@ -583,7 +646,14 @@ pub fn run_case(prop: StepProp, ctx: &Ctx, b: &mut Batch, case: &StepCase) {
     let case = &owned;
     with_kit!(case.problem.spec, K, kit => {
         match run_trace::<K>(&kit, case) {
-            Ok((d, tr)) => judge_trace::<K>(prop, ctx, b, &kit, case, &d, &tr),
+            Ok((d, segs)) => {
+                if segs.len() > 1 {
+                    b.count("cases_with_re_setup", 1);
+                }
+                for tr in &segs {
+                    judge_trace::<K>(prop, ctx, b, &kit, case, &d, tr);
+                }
+            }
             Err(_) => b.count("case_not_executable", 1),
         }
     });
